@@ -4,11 +4,30 @@ from lib import fmtcheck as C
 from lib import boundsrt as B
 
 
+def where_oracle(chk, results):
+    """independent of the model: whatever the derive infers, the predicates the user wrote in the type's own where
+    clause are the first predicates of the impl's where clause, in order"""
+    from lib import fmtitems as F
+    for r in results:
+        it = r["item"]
+        if not it.get("where"):
+            continue
+        real = C.real_display(r["resp"])
+        if real[0] != "ok" or real[2] is None:
+            continue
+        want = [F.nows(p) for p in it["where"]]
+        chk.bump("where-oracle:own-where-clause")
+        if real[2][:len(want)] != want:
+            chk.violation("own-where-clause-lost", {"item": r["src"], "derive": it["trait"], "impl_where": real[2], "own": want},
+                          "the type's own where clause does not open the impl's where clause: %s" % r["src"])
+
+
 def run(tier, seed, replay):
     chk = common.Check("C04", tier, seed)
     st = common.check_proofs(chk, "C04", extra_dirs=("Fmt", "Gen", "C05", "C02"))
     n = 3500 if tier == "quick" else 20000
-    C.decision_tie(chk, n, n // 2)
+    res, dres = C.decision_tie(chk, n, n // 2)
+    where_oracle(chk, res + dres)
 
     # rustc oracle with the real macro: sufficiency (the derive compiles) and non-excess (impl available for NoFmt)
     rng = chk.rng
@@ -43,10 +62,11 @@ def run(tier, seed, replay):
         chk, st,
         rule="(1) generated Display-like/Debug items whose field types are random type trees over the type parameters (paths, "
              "qualified/associated types, references, arrays, tuples, fn pointers, trait objects, Fn(..) sugar): model vs real expander, "
-             "exact where-clause (order and multiplicity included; several bound(...) attributes per item, on enums and variants, in "
+             "exact where-clause (the type's OWN where clause / inline bounds first; order and multiplicity included; several bound(...) attributes per item, on enums and variants, in "
              "any order and mixed with attributes of other derives); (2) generic structs/enums (1-3 type parameters inside T, W<T>, "
              "Box<T>, Vec/Option/arrays/tuples; struct-, variant-, field-level attributes; named/positional/aliased/by-position "
-             "references, expression arguments with user bound(...)) compiled by rustc with the real macro: the derive must compile and "
+             "references, expression arguments with user bound(...); own where clauses and inline bounds on tuple / named structs and enums; "
+             "wrapping enum-level formats that name a field under another trait than the variant's own format) compiled by rustc with the real macro: the derive must compile and "
              "Ty<..NoFmt for every unformatted parameter..> must implement the trait; non-trivial = every case; distinct by source",
         trusted=C.FMT_TRUSTED + ["rustc's trait solver as the judge of 'sufficient'/'available' (tools/lib/boundsrt.py decides which "
                                  "parameters count as formatted from the property text, independently of the model)"])
